@@ -93,6 +93,14 @@ pub fn topic_and_payload_to_event(topic: Vec<u8>, payload: Vec<u8>) -> Event {
             }
         };
 
+        if iter.next().is_some() {
+            return Event::InvalidPublish {
+                reason: MessageError::InvalidSparkplugTopic,
+                topic,
+                payload,
+            };
+        }
+
         return match StateBirthDeathCertificate::try_from(payload.as_slice()) {
             Ok(cert) => {
                 let payload = match cert.online {
